@@ -9,4 +9,8 @@ def skippedChannelClosesValues : Bool := true
 /-- updateValues closes a stream addressed to a node it is not a data predecessor of -/
 def closesNonDataValues : Bool := true
 def firstCopyExpr : String := "len(t.call.writeTo)+len(t.call.writeToBranches)*2"
+/-- multiStreamReader.close: the loop signals every merged source (range variables renamed K, V) -/
+def mergeCloseLoop : String := "range msr.sts: V.closeRecv()"
+/-- multiStreamReader.recv: a source found closed is removed from chosenList (first occurrence) -/
+def mergeRecvDrop : String := "if msr.chosenList[K]==chosen: append(msr.chosenList[:K],msr.chosenList[K+1:]...)"
 end EinoV.Expected.C19
